@@ -29,8 +29,9 @@ type callSpec struct {
 }
 
 type resultSpec struct {
-	T    string `json:"t"` // ok err fatal panicerr panicfatal panicval
-	Code int    `json:"code"`
+	T      string `json:"t"` // ok err fatal panicerr panicfatal panicval
+	Code   int    `json:"code"`
+	Silent bool   `json:"silent"` // the failure's message is the empty string
 }
 
 type nodeSpec struct {
@@ -229,6 +230,25 @@ func body(kind, slot int, ctx context.Context, args []interface{}) error {
 	}
 	gate(gateBase[n] + len(nd.Calls))
 	tok := fmt.Sprintf("E%d", n)
+	if nd.Result.Silent {
+		switch nd.Result.T {
+		case "err":
+			logEv(event{E: "be", K: n, R: "err", Code: 1})
+			return errors.New("")
+		case "fatal":
+			logEv(event{E: "be", K: n, R: "err", Code: nd.Result.Code})
+			return mg.Fatal(nd.Result.Code)
+		case "panicerr":
+			logEv(event{E: "be", K: n, R: "panic", Code: 1})
+			panic(errors.New(""))
+		case "panicfatal":
+			logEv(event{E: "be", K: n, R: "panic", Code: nd.Result.Code})
+			panic(mg.Fatal(nd.Result.Code))
+		case "panicval":
+			logEv(event{E: "be", K: n, R: "panic", Code: 1})
+			panic("")
+		}
+	}
 	switch nd.Result.T {
 	case "ok":
 		logEv(event{E: "be", K: n, R: "nil"})
